@@ -836,12 +836,13 @@ def handle_cases(ctx, cases, extra=None):
                 ctx.disagree("do_shape model: exception", {"origin": c.origin, "cfg": cfg_tokens(c.cfg), "request": rq,
                                                           "exception": repr(cap.exc)[:200], "at": f"{tb.name}:{tb.line}"}, impl, rp)
             continue
-        w = rp.split()
+        head, _, found = rp.partition(" | ")
+        w = head.split()
         if len(w) < 3 or w[0] != "ok":
             raise common.BrokenCheck(f"driver reply {rp!r} to {rq!r}")
         verdict, cmp_ = w[1], w[2]
         if cmp_ != "same" or len(w) > 3:
-            ctx.disagree("do_shape model: skeleton", {"origin": c.origin, "cfg": c.cfg, "request": rq}, " ".join(cap.tokens), rp)
+            ctx.disagree("do_shape model: skeleton", {"origin": c.origin, "cfg": c.cfg, "request": rq}, " ".join(cap.tokens), head)
         ctx.count("validator_" + verdict)
         if verdict == "acc":
             c.accepted = True
@@ -849,13 +850,14 @@ def handle_cases(ctx, cases, extra=None):
                 ctx.sample({"origin": c.origin, "cfg": cfg_tokens(c.cfg), "skeleton": " ".join(cap.tokens), "validator": "accept"})
         else:
             c.accepted = False
+            c.found = "ok " + found
             rejected.append(c)
     # every rejection: search a concrete oracle
     if rejected:
         def fuel(c):
             return min(3000, 150 + 3 * len(c.cap.tokens))
-        dreq = ["d " + cfg_tokens(c.cfg) + " | " + " ".join(c.cap.tokens) + f" | 6 14 {fuel(c)} 0" for c in rejected]
-        drep = pdriver(ctx, dreq)
+        drep = [c.found for c in rejected]   # first search (2^6 decision prefixes) was done with the validation
+        dreq = ["v-search"] * len(rejected)
         again = [i for i, rp in enumerate(drep) if not rp.startswith("ok differ")]
         if again:
             dreq2 = ["d " + cfg_tokens(rejected[i].cfg) + " | " + " ".join(rejected[i].cap.tokens) + f" | 11 48 {fuel(rejected[i])} 300"
